@@ -3,7 +3,10 @@
 package c05
 
 import (
+	"sync/atomic"
+
 	"fmt"
+	"github.com/arnodel/golua/ir"
 	"os"
 	"path/filepath"
 	"sort"
@@ -297,6 +300,72 @@ func amplifiers(c *vp.Child) {
 	}
 }
 
+// superlinear: the work the compiler does for load() inside a limited context
+// must stay linear in the size of the chunk ("a constant times the memory the
+// context may hold"; the CPU counter is only charged once, for the source
+// length, before compiling). The monitor is the verif hook counting the
+// lexical scopes visited by name resolution (ir.VerifScopeVisits), a
+// deterministic work counter: the same template is loaded at size n and at
+// size 4n; linear work gives 4 times the visits, quadratic work 16 times. A
+// verdict needs a ratio above 8 and more than 1e8 visits at the larger size
+// (about 100 visits per source byte). Process CPU time is recorded as
+// information only (it is not reliable on a loaded host).
+var superlinearTemplates = []struct{ name, src string }{
+	// a chunk with $N local variables, all captured by one function
+	{"load-many-locals", `local t = {} for i = 1, $N do t[#t + 1] = "local a" .. i .. " = " .. i end
+t[#t + 1] = "return function() return 0" for i = 1, $N do t[#t + 1] = " + a" .. i end t[#t + 1] = " end"
+local f, err = load(table.concat(t, "\n")) return f == nil`},
+	// a chunk that is one long sequence of statements on globals
+	{"load-many-statements", `local t = {} for i = 1, $N * 4 do t[#t + 1] = "x = (x or 0) + " .. i end
+local f, err = load(table.concat(t, "\n")) return f == nil`},
+	// many sibling blocks, each with a few locals
+	{"load-many-blocks", `local t = {} for i = 1, $N do t[#t + 1] = "do local a, b = " .. i .. ", x; x = a + (b or 0) end" end
+local f, err = load(table.concat(t, "\n")) return f == nil`},
+	// many small functions
+	{"load-many-functions", `local t = {"local r = 0"} for i = 1, $N do t[#t + 1] = "r = r + (function(p) local q = p + " .. i .. " return q end)(r)" end
+local f, err = load(table.concat(t, "\n")) return f == nil`},
+	{"load-long-concat-chain", `local t = {} for i = 1, $N do t[#t + 1] = "'s" .. i .. "'" end
+local f, err = load("return " .. table.concat(t, " .. ")) return f == nil`},
+	{"load-big-table-constructor", `local t = {} for i = 1, $N * 4 do t[#t + 1] = "k" .. i .. " = " .. i end
+local f, err = load("return {" .. table.concat(t, ", ") .. "}") return f == nil`},
+}
+
+func superlinear(c *vp.Child, k0 int) {
+	const n1, n2 = 4000, 16000
+	for i, tpl := range superlinearTemplates {
+		if !c.Mine(k0 + i) {
+			continue
+		}
+		measure := func(n int) (visits uint64, secs float64, o *gl.Outcome) {
+			text := strings.ReplaceAll(tpl.src, "$N", fmt.Sprint(n))
+			v0 := atomic.LoadUint64(&ir.VerifScopeVisits)
+			t0 := quota.CPUTime()
+			o = quota.Run(text, nil, 2000000000, 1<<30)
+			return atomic.LoadUint64(&ir.VerifScopeVisits) - v0, quota.CPUTime() - t0, o
+		}
+		text2 := strings.ReplaceAll(tpl.src, "$N", fmt.Sprint(n2))
+		c.Begin("superlinear/"+tpl.name, text2)
+		v1, t1, o1 := measure(n1)
+		v2, t2, o2 := measure(n2)
+		c.Eval(2)
+		c.NonTrivial(vp.Hash("superlinear", tpl.name))
+		if o1.Kind != gl.OK || o2.Kind != gl.OK {
+			c.Violation("superlinear-outcome", tpl.name, fmt.Sprintf("the template did not run to its end: %s / %s", o1.String(), o2.String()), text2)
+			continue
+		}
+		if v1 == 0 || v2 == 0 {
+			c.Violation("hook-silent", tpl.name, "the scope-visit hook counted nothing while a chunk was compiled", text2)
+			continue
+		}
+		ratio := float64(v2) / float64(v1)
+		c.Sample(fmt.Sprintf("superlinear %s: scope visits %d at n=%d, %d at n=%d (ratio %.1f); cpu time %.2f s / %.2f s; accounted cpu %d / %d", tpl.name, v1, n1, v2, n2, ratio, t1, t2, o1.UsedCPU, o2.UsedCPU))
+		if ratio > 8 && v2 > 100000000 {
+			c.Violation("superlinear-unmetered", tpl.name, fmt.Sprintf("%s: name resolution visited %d lexical scopes for size %d and %d for size %d (ratio %.1f for 4 times the size; linear work gives 4) "+
+				"while the CPU counter advanced by %d and %d in all; process CPU time %.2f s and %.2f s", tpl.name, v1, n1, v2, n2, ratio, o1.UsedCPU, o2.UsedCPU, t1, t2), text2)
+		}
+	}
+}
+
 func (Prop) RunBatch(c *vp.Child) {
 	switch {
 	case strings.HasPrefix(c.Stage, "exact"):
@@ -305,6 +374,7 @@ func (Prop) RunBatch(c *vp.Child) {
 		interceptors(c)
 	case c.Stage == "amplifiers":
 		amplifiers(c)
+		superlinear(c, 100003)
 	}
 }
 
